@@ -370,6 +370,14 @@ def nested_column(draw, name, layouts=("3level",), allow_map=True, force_outer_o
     if layout == "2level_primitive":
         inner_opt = False
     node = dremel.list_schema(name, dict(enode), list_optional=outer_opt, element_optional=inner_opt, layout=layout)
+    if layout == "3level":
+        # the names of the repeated group and of the element are conventions, not part of the structure: Hive writes
+        # bag.array_element, older parquet-cpp list.item (the names `array` and `<column>_tuple` are left out: with a single
+        # child they mean a two-level list to the backward-compatibility rules)
+        mid, el = draw(st.sampled_from([("list", "element"), ("list", "element"), ("list", "item"), ("bag", "array_element"),
+                                        ("a", "b")]))
+        node["children"][0]["name"] = mid
+        node["children"][0]["children"][0]["name"] = el
     return {"node": node, "shape": "list", "layout": layout, "ekind": ekind, "pool": pool,
             "outer_opt": outer_opt, "inner_opt": inner_opt, "leaves": 1}
 
@@ -449,6 +457,10 @@ def nested_plan(draw, thorough=False, layouts=("3level",), allow_v2=True, allow_
                     if pn is not None:
                         left -= pn
                 chunks[lp] = {"codec": draw(st.sampled_from(CODECS)), "pages": pages}
+                if draw(st.integers(0, 2)) == 0:
+                    # chunk statistics with a null count, in either of the two conventions writers follow for repeated columns
+                    chunks[lp]["stats"] = draw(st.sampled_from([True, {"fields": ["null_count"]}]))
+                    chunks[lp]["null_count_mode"] = draw(st.sampled_from(["entries", "leaf_values"]))
         rgs.append({"data": data, "chunks": chunks})
     plan = {"schema": [c["node"] for c in cols], "row_groups": rgs,
             "created_by": draw(st.sampled_from(["parquet-mr version 1.12.3 (build abc)", "parquet-cpp-arrow version 14.0.1"]))}
